@@ -177,12 +177,21 @@ def _lin(a, g1, b, g2):
 
 def _cmp(ga, gb):
     worst = 0.0
+    # the sensitivity of one input may cancel to zero while its summands are as large as the other inputs' sensitivities (a scalar
+    # input of MathGeneral: sum_i w_i df_i = 0 exactly for both seeds, 1e-16 of the summands for their combination): an input is
+    # compared relative to its own size, but not below 1e-5 of the largest one (limit 1e-9: absolute errors above 1e-14 of the largest count)
+    joint = 0.0
+    for z in list(ga) + list(gb):
+        if z is not None:
+            zd = np.asarray(todense(z))
+            if zd.size and np.all(np.isfinite(zd)):
+                joint = max(joint, float(np.max(np.abs(zd))))
     for x, y in zip(ga, gb):
         if x is None and y is None:
             continue
         xd = np.zeros_like(todense(y)) if x is None else todense(x)
         yd = np.zeros_like(todense(x)) if y is None else todense(y)
-        worst = max(worst, relerr(xd, yd, floor=1e-300))
+        worst = max(worst, relerr(xd, yd, floor=max(1e-300, 1e-5 * joint)))
     return worst
 
 
